@@ -586,7 +586,17 @@ func ruleR04d(c *Check) {
 	type scanItem struct{ fn, lit *ssa.Function }
 	var scan []scanItem
 	for _, fn := range c.P.Funcs {
-		if fn.Parent() == nil || !joined(fn) {
+		if !joined(fn) {
+			continue
+		}
+		// a goroutine body: a function literal, or a named function/method started with `go`
+		spawned := fn.Parent() != nil
+		for _, cs := range c.G.CallersOf(fn) {
+			if _, isGo := cs.(*ssa.Go); isGo {
+				spawned = true
+			}
+		}
+		if !spawned {
 			continue
 		}
 		scan = append(scan, scanItem{fn, fn})
